@@ -8,7 +8,7 @@
     the original node (e.g. [a // b] becomes [math.floor(a / b)], whose children [a], [b]
     sit two levels deeper), so the model recurses on explicit FUEL: one unit per node level.
     [w_*] below is a size measure with slack for the lowering rewrites (each rewrite
-    satisfies [w (rewrite x) <= w x], proved in Proof/LoweringWeight.v), and a rule is run
+    satisfies [w (rewrite x) <= w x]: the [hooks_w_*] lemmas of Proof/LoweringCensusRules.v), and a rule is run
     with fuel [w_block b]; Proof/LoweringCensusVisit.v proves that this fuel is sufficient
     (the result no longer changes with more fuel).  On fuel exhaustion a node is returned
     unchanged.
@@ -75,9 +75,10 @@ Record hooks := mkHooks {
 Definition id_hooks : hooks := mkHooks (fun e => e) (fun e => e) (fun k s => (s, k)) (fun b => b).
 
 (** the forms a darklua [Prefix] / [Variable] can hold *)
-Definition is_prefix_form (e : expr) : bool :=
+Fixpoint is_prefix_form (e : expr) : bool :=
   match e with
-  | EIdent _ | EField _ _ | EIndex _ _ | ECall _ _ _ | EParen _ | ETypeInst _ _ => true
+  | EIdent _ | EField _ _ | EIndex _ _ | ECall _ _ _ | EParen _ => true
+  | ETypeInst p _ => is_prefix_form p        (* [Prefix::TypeInstantiation] holds a [Prefix] *)
   | _ => false
   end.
 Definition is_var_form (e : expr) : bool :=
